@@ -30,3 +30,43 @@ void bit_test_good(const uint8_t* in, uint8_t* out) {
     __m128i zero = _mm_setzero_si128();
     _mm_storeu_si128((__m128i*)out, _mm_sub_epi8(zero, _mm_cmpgt_epi8(masked, zero)));
 }
+
+/* ---- R23 lane counter: 16-bit per-lane counters flushed with a signed multiply-add */
+int64_t lane_counter_bad(const int16_t* v, int64_t count, int16_t key) {
+    int64_t total = 0, i = 0;
+    __m128i k = _mm_set1_epi16(key);
+    const __m128i ones = _mm_set1_epi16(1);
+    while (i + 8 <= count) {
+        int64_t end = i + 8 * (int64_t)65535;           /* 65535 increments: fine unsigned, wraps signed at 32768 */
+        if (end > count) end = count;
+        __m128i acc = _mm_setzero_si128();
+        for (; i + 8 <= end; i += 8) {
+            __m128i x = _mm_loadu_si128((const __m128i*)(v + i));
+            acc = _mm_sub_epi16(acc, _mm_cmpeq_epi16(x, k));
+        }
+        __m128i s = _mm_madd_epi16(acc, ones);
+        s = _mm_add_epi32(s, _mm_srli_si128(s, 8));
+        s = _mm_add_epi32(s, _mm_srli_si128(s, 4));
+        total += _mm_cvtsi128_si32(s);
+    }
+    return total;
+}
+int64_t lane_counter_good(const int16_t* v, int64_t count, int16_t key) {
+    int64_t total = 0, i = 0;
+    __m128i k = _mm_set1_epi16(key);
+    const __m128i ones = _mm_set1_epi16(1);
+    while (i + 8 <= count) {
+        int64_t end = i + 8 * (int64_t)32767;
+        if (end > count) end = count;
+        __m128i acc = _mm_setzero_si128();
+        for (; i + 8 <= end; i += 8) {
+            __m128i x = _mm_loadu_si128((const __m128i*)(v + i));
+            acc = _mm_sub_epi16(acc, _mm_cmpeq_epi16(x, k));
+        }
+        __m128i s = _mm_madd_epi16(acc, ones);
+        s = _mm_add_epi32(s, _mm_srli_si128(s, 8));
+        s = _mm_add_epi32(s, _mm_srli_si128(s, 4));
+        total += _mm_cvtsi128_si32(s);
+    }
+    return total;
+}
